@@ -32,12 +32,13 @@ const (
 	kAppAuth    = 4 // staked application for C35: chains 0001 + 0002, 2 relays per chain
 	kAppUnstake = 5 // application that began unstaking at height 3 (record exists, status unstaking)
 	kNoApp      = 6 // a key that never staked an application
-	kAppMax1    = 7 // applications for C34: one chain (0001), max relays 1, 2, 3, 6
+	kAppMax1    = 7 // applications for C34: one chain (0001), max relays 1, 2, 3, 6 (and 4: kAppMax4)
 	kAppMax2    = 8
 	kAppMax3    = 9
 	kAppMax6    = 10
 	kNonNode    = 11 // a key that is no validator
-	nKeys       = 12
+	kAppMax4    = 12
+	nKeys       = 13
 )
 
 const (
@@ -122,6 +123,7 @@ func NewWorld() *World {
 			{Key: kAppMax2, Tokens: 2500000, Chains: []string{chainServed}},
 			{Key: kAppMax3, Tokens: 3500000, Chains: []string{chainServed}},
 			{Key: kAppMax6, Tokens: 6500000, Chains: []string{chainServed}},
+			{Key: kAppMax4, Tokens: 4500000, Chains: []string{chainServed}},
 		},
 		DAOTokens: 1000000, DAOOwner: kOtherNode, Servicer: kServicer,
 		AppParams: func(p *appsTypes.Params) {
